@@ -140,7 +140,7 @@ func (w *Writer) Reset() {
 // the simulator; with scribble the scratch buffer is overwritten with 0xA5 as
 // soon as Write returns, as a caller reusing its buffer would.
 // It returns the index of the failing chunk (or -1) and the error.
-func Feed(w io.Writer, doc []byte, cuts []int, scribble bool, clock *uint64) (int, error) {
+func Feed(w io.Writer, doc []byte, cuts []int, scribble bool, clock *uint64, after ...func(chunk int)) (int, error) {
 	var scratch []byte
 	prev := 0
 	write := func(i int, chunk []byte) error {
@@ -155,6 +155,9 @@ func Feed(w io.Writer, doc []byte, cuts []int, scribble bool, clock *uint64) (in
 			*clock++
 		}
 		_, err := w.Write(buf)
+		for _, f := range after {
+			f(i)
+		}
 		if scribble {
 			for j := range buf {
 				buf[j] = 0xA5
